@@ -1,7 +1,7 @@
 /-
   C03 — schema invariant of typed `pg.List`, `pg.Dict`, `pg.Object` (model: PgModel/SymTyped.lean on
   top of the C04 value-spec model; lemmas: PgProofs/SymTyped.lean).  The model mirrors /repo with
-  fixes/C03-F08.patch, C03-F60.patch and C03-F61.patch applied.
+  fixes/C03-F08.patch, C03-F73.patch and C03-F74.patch applied.
 
   The theorems are parametric in the element / field specs and assume only that `apply` is
   idempotent on them (`Idem`, the C04 theorem; `idem_of_frag` discharges it for the C04 fragment).
@@ -401,7 +401,7 @@ def C03_dict_preserve_Full : Prop :=
   ∀ (env : Env) (p : Bool) (pb : Val → Bool) (d : TDict) (k : String) (a : Arg),
     (∀ f ∈ d.fields, Idem env p f.value) → ConformsD env p d → ConformsD env p (dictPrim env p pb d k a).1
 
-/-- F63 (replayed on the real code): a `pg.List([], value_spec=List(Int()))` assigned to a field
+/-- F76 (replayed on the real code): a `pg.List([], value_spec=List(Int()))` assigned to a field
 declared `List(Int(), min_size=2)` is stored without validation, because
 `List(min_size=2).is_compatible(List())` is True (C04 F09b). -/
 theorem C03_dict_typed_counterexample : ¬ C03_dict_preserve_Full := by
